@@ -44,14 +44,14 @@ fn omitted(patterns: &[String], key: &str) -> bool {
     false
 }
 
-pub fn judge(t: &Tree, sets: &[Vec<String>], scratch: &Scratch, n: &AtomicU64) -> Vec<(Violation, Vec<String>)> {
+pub fn judge(t: &Tree, hunk: usize, sets: &[Vec<String>], scratch: &Scratch, n: &AtomicU64) -> Vec<(Violation, Vec<String>)> {
     let mut v = Vec::new();
     let brief = tree::tree_brief(t);
     let src = scratch.fresh("src");
     tree::materialize(t, &src);
     let full = scratch.fresh("full");
     run::do_create_archive(&full);
-    let opts = BOpts::new(2, 1 << 20, 1 << 20);
+    let opts = BOpts::new(hunk, 1 << 20, 1 << 20);
     let out = run::do_backup(&full, &src, &opts, run::NOHOOK, Flavor::Current);
     if !out.clean_success() {
         v.push((Violation::new("C15:backup-failed", format!("tree {brief}: {}", out.describe())), vec![]));
@@ -95,7 +95,7 @@ pub fn judge(t: &Tree, sets: &[Vec<String>], scratch: &Scratch, n: &AtomicU64) -
             .filter(|k| !k.is_empty())
             .map(|k| tree::apath_of(k))
             .collect();
-        let at = format!("tree {brief} exclude {set:?}");
+        let at = format!("tree {brief} hunk={hunk} exclude {set:?}");
         if !bo.clean_success() || !lo.clean() || !ro.clean() {
             v.push((
                 Violation::new(
@@ -130,17 +130,55 @@ pub fn pattern_sets() -> Vec<Vec<String>> {
     gen::subsets_upto(&pats, 2)
 }
 
+/// Wider fixed trees (every name of the menu at two levels), so that index hunks of 3 to 7
+/// entries hold matching and non-matching entries side by side.
+fn wide_trees() -> Vec<Tree> {
+    let mut out = Vec::new();
+    for variant in 0..3 {
+        let mut t = crate::tree::empty_tree();
+        for (i, n) in NAMES.iter().enumerate() {
+            let as_dir = (i + variant) % 3 == 0;
+            if as_dir {
+                t.insert(n.to_string(), crate::tree::Node::dir(crate::tree::T0 + 700 + i as i64));
+                for (j, m) in NAMES.iter().enumerate() {
+                    if (i + j + variant) % 2 == 0 {
+                        t.insert(format!("{n}/{m}"), crate::tree::Node::file(b"x", crate::tree::T0 + 710 + j as i64));
+                    }
+                }
+            } else {
+                t.insert(n.to_string(), crate::tree::Node::file(b"y", crate::tree::T0 + 720 + i as i64));
+            }
+        }
+        out.push(t);
+    }
+    out
+}
+
 pub fn run(report: &Report, budget: &Budget) {
     let thorough = report.thorough();
     let shapes = gen::shapes(&NAMES, &[K::Dir, K::File], if thorough { 4 } else { 3 }, 3);
     let sets = pattern_sets();
     let scratches: Vec<Scratch> = (0..crate::util::n_workers()).map(|_| Scratch::new("c15")).collect();
     let n = AtomicU64::new(0);
+    // wide trees x hunk sizes first
+    let wides = wide_trees();
+    let hunks = [1usize, 2, 3, 4, 5, 7, 1000];
+    let wdone = par_for(wides.len() * hunks.len(), budget, |w, i| {
+        let t = &wides[i / hunks.len()];
+        let hunk = hunks[i % hunks.len()];
+        let _g = announce(w, || format!("C15 wide tree {} hunk {hunk}", i / hunks.len()));
+        for (v, set) in judge(t, hunk, &sets, &scratches[w], &n) {
+            report.violation(&v, &json!({"kind": "c15", "tree": tree::tree_to_json(t), "exclude": set, "hunk": hunk}));
+        }
+        scratches[w].clear();
+    });
+    report.set("wide_tree_cases", json!(wdone));
     let done = par_for(shapes.len(), budget, |w, i| {
         let t = gen::tree_of(&shapes[i]);
+        let hunk = [2usize, 1, 3, 1000][i % 4];
         let _g = announce(w, || format!("C15 {}", tree::tree_brief(&t)));
-        for (v, set) in judge(&t, &sets, &scratches[w], &n) {
-            report.violation(&v, &json!({"kind": "c15", "tree": tree::tree_to_json(&t), "exclude": set}));
+        for (v, set) in judge(&t, hunk, &sets, &scratches[w], &n) {
+            report.violation(&v, &json!({"kind": "c15", "tree": tree::tree_to_json(&t), "exclude": set, "hunk": hunk}));
         }
         if i % 199 == 3 {
             report.sample(json!({"tree": tree::tree_brief(&t), "pattern_sets": sets.len()}));
@@ -163,5 +201,6 @@ pub fn replay(case: &Value) -> Vec<Violation> {
     let set: Vec<String> = case["exclude"].as_array().unwrap().iter().map(|s| s.as_str().unwrap().to_string()).collect();
     let scratch = Scratch::new("replay");
     let n = AtomicU64::new(0);
-    judge(&t, &[set], &scratch, &n).into_iter().map(|(v, _)| v).collect()
+    let hunk = case["hunk"].as_u64().unwrap_or(2) as usize;
+    judge(&t, hunk, &[set], &scratch, &n).into_iter().map(|(v, _)| v).collect()
 }
